@@ -79,9 +79,15 @@ def run_one(mod, payload, limit=None, fn="run_case"):
     return res
 
 
+_SEQ = [0]
+
+
 def _work(task):
     idx, fn, payload = task
-    return idx, run_one(_MOD, payload, fn=fn)
+    _SEQ[0] += 1
+    res = run_one(_MOD, payload, fn=fn)
+    res["_where"] = (os.getpid(), _SEQ[0])       # which worker ran it, and as its how-manieth case (for history replays)
+    return idx, res
 
 
 # ----------------------------------------------------------------------------- parent side
@@ -128,6 +134,8 @@ def replay_file(path, as_json=False):
     """Re-run exactly one recorded case on the current tree, twice; print the verdict."""
     with open(path) as f:
         rec = json.load(f)
+    if "history" in rec:
+        return replay_history(path, as_json)
     prop = rec["property"]
     mod = load_check(prop)
     signal.signal(signal.SIGALRM, _alarm)
@@ -155,6 +163,45 @@ def replay_file(path, as_json=False):
         if reproduced:
             print(f"VIOLATION property={prop} replay={path}")
     return 1 if reproduced else 0
+
+
+def replay_history(path, as_json=False):
+    """Re-run a recorded HISTORY (the cases one worker ran, in order) in this fresh process, then the case itself, once."""
+    with open(path) as f:
+        rec = json.load(f)
+    prop = rec["property"]
+    mod = load_check(prop)
+    signal.signal(signal.SIGALRM, _alarm)
+    if hasattr(mod, "init_worker"):
+        mod.init_worker()
+    for h in rec["history"]:
+        run_one(mod, copy.deepcopy(h), fn=rec.get("fn", "run_case"))
+    res = run_one(mod, copy.deepcopy(rec["payload"]), fn=rec.get("fn", "run_case"))
+    sigs = sorted({signature(prop, v) for v in res["violations"]})
+    reproduced = rec["signature"] in sigs
+    if as_json:
+        print(json.dumps({"reproduced": reproduced, "signatures": sigs}))
+    else:
+        print(f"history replay {path}: {len(rec['history'])} earlier cases, then the case")
+        print(f"  recorded signature: {rec['signature']}\n  observed: {sigs}")
+        if reproduced:
+            print(f"VIOLATION property={prop} replay={path}")
+    return 1 if reproduced else 0
+
+
+def _confirm_history(path):
+    """Two fresh subprocesses, each replaying the whole history once: both must show the violation."""
+    env = dict(os.environ)
+    env["SPECMC_NO_REEXEC"] = "1"
+    ok = 0
+    for _ in range(2):
+        try:
+            r = subprocess.run([sys.executable, "-m", "specmc", "replay", path, "--json"], cwd=ROOT, env=env, capture_output=True, text=True, timeout=3600)
+            line = [x for x in r.stdout.splitlines() if x.startswith("{")][-1]
+            ok += bool(json.loads(line).get("reproduced"))
+        except Exception:  # noqa: BLE001
+            pass
+    return ok == 2
 
 
 def _confirm(path):
@@ -258,6 +305,39 @@ def run_check(check_id, tier, seed):
                     pass
             else:
                 unreproduced.append((s, vd))
+    # a violation that a fresh process does not show alone may depend on what the SAME process generated before it (state that leaks
+    # from one generation into the next): replay the worker's history in fresh processes; reproduced twice => it is a violation
+    history_note = {}
+    if unreproduced and not hasattr(mod, "drive"):
+        by_worker = {}
+        for i, res in enumerate(results):
+            w = res.get("_where")
+            if w:
+                by_worker.setdefault(w[0], []).append((w[1], i))
+        still = []
+        for n_done, (s_, vd) in enumerate(unreproduced):
+            if n_done >= 3:
+                still.append((s_, vd))
+                continue
+            wit = unexplained[s_]["witness"]
+            idx = next((i for i, c in enumerate(cases) if c is wit), None)
+            w = results[idx].get("_where") if idx is not None else None
+            if not w:
+                still.append((s_, vd))
+                continue
+            earlier = [i for seq, i in sorted(by_worker[w[0]]) if seq < w[1]]
+            hp = paths[s_].replace(".json", ".history.json")
+            with open(hp, "w") as f:
+                json.dump({"property": prop, "tier": tier, "labels": wit.get("labels", []), "fn": wit.get("fn", "run_case"), "signature": s_,
+                           "history": [cases[i]["payload"] for i in earlier], "payload": wit["payload"],
+                           "note": "the violation depends on the cases this process ran before it"}, f, default=str)
+            if _confirm_history(hp):
+                confirmed.append(s_)
+                paths[s_] = hp
+                history_note[s_] = len(earlier)
+            else:
+                still.append((s_, vd))
+        unreproduced = still
 
     # ---- verdict lines
     for entry, esigs in explained.values():
@@ -269,6 +349,8 @@ def run_check(check_id, tier, seed):
         print(f"    signature: {s}")
         print(f"    labels: {slot['witness'].get('labels')}  cases: {slot['count']}")
         print(f"    detail: {str(slot['v'].get('detail', ''))[:600]}")
+        if s in history_note:
+            print(f"    note: not shown by a fresh process running this case alone; reproduced twice by replaying the {history_note[s]} cases the same process ran before it (state leaks between generations)")
     if len(confirmed) > MAX_REPORT:
         print(f"... and {len(confirmed) - MAX_REPORT} more confirmed violation signatures")
     if len(unexplained) > len(sigs):
